@@ -9,8 +9,10 @@ and holds for **all** byte strings, texts, `input_encoding` values and **all cod
 (`AsciiCompatible`, `AsciiPrefix`, `RoundTrip`/`RoundTripOn`).  UTF-8, latin-1 and ascii are concrete codecs that
 satisfy the laws (`MakoModel/Encoding/Codecs.lean`) and instantiate the `example`s.
 
-Defects of the implementation that the model shares (recorded in `known_findings.json`) appear as a `…_partial`
-theorem with its guard and a `…_counterexample` theorem; the full-strength statement is quoted in an `OPEN` comment.
+The one defect of the implementation that remains (F-C18-2, recorded in `known_findings.json`) appears as a theorem
+with its guard (`HeaderOk`) and a `…_counterexample` theorem; the full-strength statement is quoted in an `OPEN` comment.
+F-C18-1, F-C18-3 and F-C18-4 were repaired in /repo; their theorems are stated at full strength and rest on the named
+obligations `bom_compared_by_codec`, `source_strips_bom`, `names_written_ascii` about the regenerated constants.
 -/
 namespace MakoModel.C18
 open MakoModel.Encoding
@@ -22,6 +24,7 @@ def utf8Alias : Name := ['U', 'T', 'F', '-', '8']
 
 /-- a small `codecs.lookup` for the examples -/
 def env0 : Env where
+  isUtf8 n := n = utf8Name ∨ n = utf8Alias
   codecOf n :=
     if n = utf8Name ∨ n = utf8Alias then some utf8Codec
     else if n = latin1Name then some latin1Codec
@@ -31,14 +34,14 @@ def env0 : Env where
 /-! ## 1. Which encoding is chosen: comment > input_encoding > default utf-8; a BOM means utf-8 -/
 
 /-- The decision logic of the bytes branch, outright.  With a BOM: utf-8, whatever `input_encoding` says, and a
-comment that is not literally `utf-8` is an error.  Without: the comment, else `input_encoding` (when it is a
-non-empty string), else utf-8. -/
-theorem encoding_precedence (b : Bytes) (known : Option Name) :
-    chooseBytes b known =
+comment naming something the codec registry does not call utf-8 is an error.  Without: the comment, else
+`input_encoding` (when it is a non-empty string), else utf-8. -/
+theorem encoding_precedence (env : Env) (b : Bytes) (known : Option Name) :
+    chooseBytes env b known =
       match stripBom b with
       | some r =>
         (match sniff r with
-         | some n => if n = utf8Name then .ok (utf8Name, r) else .error (.bomConflict n)
+         | some n => if env.isUtf8 n then .ok (utf8Name, r) else .error (.bomConflict n)
          | none => .ok (utf8Name, r))
       | none =>
         (match sniff b with
@@ -47,13 +50,13 @@ theorem encoding_precedence (b : Bytes) (known : Option Name) :
            match known with
            | some (c :: cs) => .ok (c :: cs, b)
            | _ => .ok (utf8Name, b)) := by
-  unfold chooseBytes
-  rw [defaults_are_utf8.2.1, defaults_are_utf8.2.2.1, defaults_are_utf8.2.2.2]
+  unfold chooseBytes bomAgrees
+  rw [defaults_are_utf8.2.1, defaults_are_utf8.2.2.1, bom_compared_by_codec]
   cases stripBom b with
   | some r =>
     simp only
     cases sniff r with
-    | some n => by_cases h : n = utf8Name <;> simp [h]
+    | some n => simp
     | none => rfl
   | none =>
     simp only
@@ -76,25 +79,27 @@ theorem encoding_precedence_str (env : Env) (t : Text) (raw : Bool) (known : Opt
   | none => rcases known with _ | _ | _ <;> rfl
 
 /-- the comment takes precedence over `input_encoding` -/
-theorem comment_beats_input_encoding (b : Bytes) (n : Name) (known : Option Name)
-    (hb : stripBom b = none) (hs : sniff b = some n) : chooseBytes b known = .ok (n, b) := by
+theorem comment_beats_input_encoding (env : Env) (b : Bytes) (n : Name) (known : Option Name)
+    (hb : stripBom b = none) (hs : sniff b = some n) : chooseBytes env b known = .ok (n, b) := by
   rw [encoding_precedence, hb, hs]
 
 /-- `input_encoding` takes precedence over the default -/
-theorem input_encoding_beats_default (b : Bytes) (c : Char) (cs : Name)
-    (hb : stripBom b = none) (hs : sniff b = none) : chooseBytes b (some (c :: cs)) = .ok (c :: cs, b) := by
+theorem input_encoding_beats_default (env : Env) (b : Bytes) (c : Char) (cs : Name)
+    (hb : stripBom b = none) (hs : sniff b = none) : chooseBytes env b (some (c :: cs)) = .ok (c :: cs, b) := by
   rw [encoding_precedence, hb, hs]
 
 /-- UTF-8 is the default -/
-theorem default_is_utf8 (b : Bytes) (hb : stripBom b = none) (hs : sniff b = none) :
-    chooseBytes b none = .ok (utf8Name, b) ∧ chooseBytes b (some []) = .ok (utf8Name, b) := by
+theorem default_is_utf8 (env : Env) (b : Bytes) (hb : stripBom b = none) (hs : sniff b = none) :
+    chooseBytes env b none = .ok (utf8Name, b) ∧ chooseBytes env b (some []) = .ok (utf8Name, b) := by
   constructor <;> rw [encoding_precedence, hb, hs]
 
 /-- a BOM (without a conflicting comment) means utf-8, whatever `input_encoding` says; the BOM is dropped -/
-theorem bom_means_utf8 (b r : Bytes) (known : Option Name) (hb : stripBom b = some r)
-    (hs : sniff r = none ∨ sniff r = some utf8Name) : chooseBytes b known = .ok (utf8Name, r) := by
+theorem bom_means_utf8 (env : Env) (b r : Bytes) (known : Option Name) (hb : stripBom b = some r)
+    (hs : sniff r = none ∨ ∃ n, sniff r = some n ∧ env.isUtf8 n = true) : chooseBytes env b known = .ok (utf8Name, r) := by
   rw [encoding_precedence, hb]
-  rcases hs with hs | hs <;> simp [hs]
+  rcases hs with hs | ⟨n, hs, hn⟩
+  · simp [hs]
+  · simp [hs, hn]
 
 -- `# coding: latin-1\né` as latin-1 bytes, `input_encoding="ascii"`: latin-1 is chosen
 example : stripBom (asciiBytes "# coding: latin-1\n".toList ++ [233]) = none ∧
@@ -107,7 +112,7 @@ example : stripBom [0xEF, 0xBB, 0xBF, 104, 105] = some [104, 105] ∧ sniff [104
 /-! ## 2. A BOM contradicted by the comment raises `CompileException` -/
 
 theorem bom_conflict_raises (env : Env) (b r : Bytes) (n : Name) (raw : Bool) (known : Option Name)
-    (hb : stripBom b = some r) (hs : sniff r = some n) (hn : n ≠ utf8Name) :
+    (hb : stripBom b = some r) (hs : sniff r = some n) (hn : env.isUtf8 n = false) :
     decodeRawStream env (.bytes b) raw known = .error (.bomConflict n) ∧
       (Err.bomConflict n).isCompileException = true := by
   simp [decodeRawStream, encoding_precedence, hb, hs, hn, Err.isCompileException]
@@ -115,40 +120,49 @@ theorem bom_conflict_raises (env : Env) (b r : Bytes) (n : Name) (raw : Bool) (k
 -- BOM + `# coding: latin-1\n`
 example : stripBom ([0xEF, 0xBB, 0xBF] ++ asciiBytes "# coding: latin-1\n".toList) =
       some (asciiBytes "# coding: latin-1\n".toList) ∧
-    sniff (asciiBytes "# coding: latin-1\n".toList) = some latin1Name ∧ latin1Name ≠ utf8Name := by decide +kernel
+    sniff (asciiBytes "# coding: latin-1\n".toList) = some latin1Name ∧ env0.isUtf8 latin1Name = false := by decide +kernel
 
-/- OPEN (finding F-C18-1): the full-strength statement is
-     `decodeRawStream env (.bytes b) raw known = .error (.bomConflict n)  ↔  env.codecOf n ≠ env.codecOf utf8Name`
-   ("a BOM *contradicted* by the comment").  The code compares the comment with the literal `"utf-8"`, so an alias
-   of utf-8 (`UTF-8`, `utf8`, `utf_8`) in the comment is reported as a conflict although it agrees with the BOM. -/
+/-- The conflict is raised exactly when the registry does not call the comment's name utf-8 ("a BOM *contradicted* by
+the comment"). -/
+theorem bom_conflict_iff (env : Env) (b r : Bytes) (n : Name) (raw : Bool) (known : Option Name)
+    (hb : stripBom b = some r) (hs : sniff r = some n) :
+    decodeRawStream env (.bytes b) raw known = .error (.bomConflict n) ↔ env.isUtf8 n = false := by
+  constructor
+  · intro h
+    cases hn : env.isUtf8 n with
+    | false => rfl
+    | true =>
+      simp only [decodeRawStream, encoding_precedence, hb, hs, hn, if_true] at h
+      repeat' split at h
+      all_goals (first | cases h | (injection h with h; cases h))
+  · exact fun hn => (bom_conflict_raises env b r n raw known hb hs hn).1
 
-/-- guard: the comment is literally `utf-8` (or absent) -/
-theorem bom_agreeing_comment_partial (env : Env) (c : Codec) (b r : Bytes) (t : Text) (known : Option Name)
-    (hb : stripBom b = some r) (hs : sniff r = none ∨ sniff r = some utf8Name)
+/-- A BOM together with a comment that agrees with it – absent, or *any* name the codec registry maps to utf-8
+(`utf-8`, `UTF-8`, `utf8`, `utf_8`, `U8`, …; F-C18-1 repaired) – compiles: the BOM is dropped and the rest is decoded
+as utf-8. -/
+theorem bom_agreeing_comment (env : Env) (c : Codec) (b r : Bytes) (t : Text) (known : Option Name)
+    (hb : stripBom b = some r) (hs : sniff r = none ∨ ∃ n, sniff r = some n ∧ env.isUtf8 n = true)
     (hc : env.codecOf utf8Name = some c) (hd : c.dec r = some t) :
     decodeRawStream env (.bytes b) true known = .ok (utf8Name, .str t) := by
-  simp [decodeRawStream, bom_means_utf8 b r known hb hs, hc, hd]
+  simp [decodeRawStream, bom_means_utf8 env b r known hb hs, hc, hd]
 
-/-- the model (like the code) raises the "conflict" for BOM + `## coding: UTF-8`, although `UTF-8` and `utf-8`
-denote the same codec -/
-theorem bom_agreeing_alias_counterexample :
-    env0.codecOf utf8Alias = env0.codecOf utf8Name ∧
-    decodeRawStream env0 (.bytes ([0xEF, 0xBB, 0xBF] ++ asciiBytes "## coding: UTF-8\nhi".toList)) true none =
-      .error (.bomConflict utf8Alias) := by
-  constructor
-  · rfl
-  · decide +kernel
+-- BOM + `## coding: UTF-8\nhi`: `UTF-8` is an alias, the template compiles to `hi` behind the comment
+example : stripBom ([0xEF, 0xBB, 0xBF] ++ asciiBytes "## coding: UTF-8\nhi".toList) =
+      some (asciiBytes "## coding: UTF-8\nhi".toList) ∧
+    sniff (asciiBytes "## coding: UTF-8\nhi".toList) = some utf8Alias ∧ env0.isUtf8 utf8Alias = true ∧
+    lexStart env0 (.bytes ([0xEF, 0xBB, 0xBF] ++ asciiBytes "## coding: UTF-8\nhi".toList)) none =
+      .ok ⟨utf8Name, "## coding: UTF-8\nhi".toList, 17⟩ := by decide +kernel
 
 /-! ## 3. Undecodable input raises `CompileException` -/
 
 theorem undecodable_raises_compile_exception (env : Env) (b r : Bytes) (n : Name) (c : Codec) (known : Option Name)
-    (h1 : chooseBytes b known = .ok (n, r)) (h2 : env.codecOf n = some c) (h3 : c.dec r = none) :
+    (h1 : chooseBytes env b known = .ok (n, r)) (h2 : env.codecOf n = some c) (h3 : c.dec r = none) :
     decodeRawStream env (.bytes b) true known = .error (.undecodable n) ∧
       (Err.undecodable n).isCompileException = true := by
   simp [decodeRawStream, h1, h2, h3, Err.isCompileException]
 
 -- `ff` is not UTF-8
-example : chooseBytes [0xFF] none = .ok (utf8Name, [0xFF]) ∧ env0.codecOf utf8Name = some utf8Codec ∧
+example : chooseBytes env0 [0xFF] none = .ok (utf8Name, [0xFF]) ∧ env0.codecOf utf8Name = some utf8Codec ∧
     utf8Codec.dec [0xFF] = none := by
   refine ⟨by decide +kernel, rfl, by decide +kernel⟩
 
@@ -161,7 +175,7 @@ theorem decode_errors (env : Env) (inp : Input) (raw : Bool) (known : Option Nam
   | str t => simp [decodeRawStream] at h
   | bytes b =>
     simp only [decodeRawStream] at h
-    cases hc : chooseBytes b known with
+    cases hc : chooseBytes env b known with
     | error e' =>
       rw [hc] at h
       injection h with h
@@ -193,11 +207,11 @@ example : decodeRawStream env0 (.bytes [0xFF]) true none = .error (.undecodable 
 lexer is that decoding -/
 theorem decode_ok_iff (env : Env) (b : Bytes) (known : Option Name) (n : Name) (t : Text) :
     decodeRawStream env (.bytes b) true known = .ok (n, .str t) ↔
-      ∃ r c, chooseBytes b known = .ok (n, r) ∧ env.codecOf n = some c ∧ c.dec r = some t := by
+      ∃ r c, chooseBytes env b known = .ok (n, r) ∧ env.codecOf n = some c ∧ c.dec r = some t := by
   simp only [decodeRawStream]
   constructor
   · intro h
-    cases hc : chooseBytes b known with
+    cases hc : chooseBytes env b known with
     | error e' => rw [hc] at h; cases h
     | ok p =>
       obtain ⟨n', r⟩ := p
@@ -228,7 +242,7 @@ theorem bytes_compile_as_text (env : Env) (c : Codec) (hA : AsciiCompatible c) (
     decodeRawStream env (.bytes b) true known = decodeRawStream env (.str t) true known ∧
     lexStart env (.bytes b) known = lexStart env (.str t) known ∧
     lexStart env (.str t) known = .ok ⟨chooseStr t known, t, codingSkip t⟩ := by
-  have hch := chooseBytes_of_agree t b known hbom (sniff_agree c hA t b hrt.1 hh)
+  have hch := chooseBytes_of_agree env t b known hbom (sniff_agree c hA t b hrt.1 hh)
   have h1 : decodeRawStream env (.bytes b) true known = .ok (chooseStr t known, .str t) := by
     simp [decodeRawStream, hch, hdecl, hrt.2]
   have h2 : decodeRawStream env (.str t) true known = .ok (chooseStr t known, .str t) := rfl
@@ -244,21 +258,22 @@ theorem bytes_compile_as_text_ascii_prefix (env : Env) (c : Codec) (hA : AsciiPr
     lexStart env (.bytes b) known =
       .ok ⟨chooseStr (L ++ '\n' :: r) known, L ++ '\n' :: r, if (lineName L).isSome then L.length + 1 else 0⟩ := by
   obtain ⟨hs, hbom⟩ := sniff_agree_line c hA L r b hL hrt.1
-  have hch := chooseBytes_of_agree (L ++ '\n' :: r) b known hbom hs
+  have hch := chooseBytes_of_agree env (L ++ '\n' :: r) b known hbom hs
   have h1 : decodeRawStream env (.bytes b) true known =
       .ok (chooseStr (L ++ '\n' :: r) known, .str (L ++ '\n' :: r)) := by
     simp [decodeRawStream, hch, hdecl, hrt.2]
   exact ⟨h1, by rw [lexStart_of_decode _ _ _ _ _ h1, codingSkip_line L r hL]⟩
 
 /-- With a UTF-8 BOM in front of the bytes: the BOM is dropped, the encoding is utf-8 whatever `input_encoding`
-says, and the lexer gets the same text and start position as for the text `t` (whose comment, if any, says
-`utf-8`). -/
+says, and the lexer gets the same text and start position as for the text `t` (whose comment, if any, names
+utf-8 by any alias). -/
 theorem bom_bytes_compile_as_text (env : Env) (c : Codec) (hA : AsciiCompatible c) (t : Text) (b : Bytes)
-    (hrt : RoundTripOn c t b) (hh : HeaderOk t) (hcm : codingName t = none ∨ codingName t = some utf8Name)
+    (hrt : RoundTripOn c t b) (hh : HeaderOk t)
+    (hcm : codingName t = none ∨ ∃ n, codingName t = some n ∧ env.isUtf8 n = true)
     (hutf : env.codecOf utf8Name = some c) (known : Option Name) :
     lexStart env (.bytes (Generated.Encoding.bom ++ b)) known = .ok ⟨utf8Name, t, codingSkip t⟩ ∧
     ∃ n, lexStart env (.str t) known = .ok ⟨n, t, codingSkip t⟩ := by
-  have hch := chooseBytes_bom_of_agree t _ b known (stripBom_bom_append b) (sniff_agree c hA t b hrt.1 hh) hcm
+  have hch := chooseBytes_bom_of_agree env t _ b known (stripBom_bom_append b) (sniff_agree c hA t b hrt.1 hh) hcm
   have h1 : decodeRawStream env (.bytes (Generated.Encoding.bom ++ b)) true known = .ok (utf8Name, .str t) := by
     simp [decodeRawStream, hch, hutf, hrt.2]
   exact ⟨lexStart_of_decode _ _ _ _ _ h1, _, lexStart_of_decode env (.str t) known _ t rfl⟩
@@ -267,9 +282,9 @@ theorem bom_bytes_compile_as_text (env : Env) (c : Codec) (hA : AsciiCompatible 
 example : AsciiCompatible utf8Codec ∧
     RoundTripOn utf8Codec "## coding: utf-8\né".toList (asciiBytes "## coding: utf-8\n".toList ++ [0xC3, 0xA9]) ∧
     HeaderOk "## coding: utf-8\né".toList ∧ codingName "## coding: utf-8\né".toList = some utf8Name ∧
-    env0.codecOf utf8Name = some utf8Codec := by
+    env0.isUtf8 utf8Name = true ∧ env0.codecOf utf8Name = some utf8Codec := by
   refine ⟨utf8_asciiCompatible, ⟨by decide +kernel, by decide +kernel⟩,
-    Or.inl ⟨"## coding: utf-8".toList, "é".toList, rfl, by decide +kernel⟩, by decide +kernel, rfl⟩
+    Or.inl ⟨"## coding: utf-8".toList, "é".toList, rfl, by decide +kernel⟩, by decide +kernel, by decide, rfl⟩
 
 /-- `## -*- coding: latin-1 -*-\nhé ${x}` -/
 def sampleText : Text := "## -*- coding: latin-1 -*-\nhé ${x}".toList
@@ -317,7 +332,8 @@ theorem bytes_compile_as_text_counterexample :
 /-! ## 5. The module file: written with a magic comment, read back by the declared-encoding rule -/
 
 /-- A module made of ASCII scaffolding, `repr`s of and verbatim copies of strings whose characters the template's codec
-can encode (the characters of the template; its file name and uri) is written successfully by `_compile_module_file`. -/
+can encode (the characters of the template), and the template's file name and uri – **arbitrary** strings, written with
+`%a` since the repair of F-C18-4 (`Piece.nameOf` has no payload) – is written successfully by `_compile_module_file`. -/
 theorem module_file_written (env : Env) (c : Codec) (f : Char → Option Bytes) (hc : Charwise c f)
     (hf : ∀ ch, isAsciiChar ch = true → f ch = some [ch.toNat])
     (np : Char → Bool) (n : Name) (hn : IsCodecName n) (hcodec : env.codecOf n = some c) (body : List Piece)
@@ -372,41 +388,28 @@ example : IsCodecName latin1Name ∧ env0.codecOf latin1Name = some latin1Codec 
 example : AsciiPrefix latin1Codec ∧ RoundTrip latin1Codec :=
   ⟨asciiPrefix_of_asciiCompatible _ latin1_asciiCompatible, latin1_roundTrip⟩
 
-/- OPEN (finding F-C18-4): `module_file_written` needs *every* payload character to be encodable.  The
-   characters of the template are (they were decoded from that codec), but `_template_filename = %r` and
-   `_template_uri = %r` put the file name and the uri into the module as well, and those are not restricted to the
-   template's codec: the full statement "a template that compiles in memory compiles into a module file" fails. -/
-
-/-- the model (like the code) cannot write the module of an ascii template whose file name is `é.html` -/
-theorem module_file_written_counterexample :
-    compileModuleFile env0 (fun _ => false) (some asciiName)
-      [.scaffold "_template_filename = ".toList, .reprOf "é.html".toList] = .error (.unencodable asciiName) := by
+-- the file name `é.html` (not ASCII) in the module of an ascii template: written, since F-C18-4 was repaired
+example : compileModuleFile env0 (fun _ => false) (some asciiName)
+      [.scaffold "_template_filename = ".toList, .nameOf "é.html".toList, .scaffold "\n".toList] =
+    .ok (asciiBytes ("# -*- coding:ascii -*-\n_template_filename = '\\xe9.html'\n".toList)) := by
   decide +kernel
 
 /-! ## 6. `Template.source` -/
 
-/-- guard: no BOM.  `Template.source` of a template given as bytes (or read from a file) is the text the lexer got. -/
-theorem source_is_decoded_text_partial (env : Env) (b : Bytes) (known : Option Name) (n : Name) (t : Text)
-    (hbom : stripBom b = none) (h : decodeRawStream env (.bytes b) true known = .ok (n, .str t)) :
+/-- `Template.source` of a template given as bytes (or read from a file) is the text the lexer got – with or without a
+BOM (F-C18-3 repaired: `ModuleInfo.source` drops the BOM before decoding, as the lexer does). -/
+theorem source_is_decoded_text (env : Env) (b : Bytes) (known : Option Name) (n : Name) (t : Text)
+    (h : decodeRawStream env (.bytes b) true known = .ok (n, .str t)) :
     templateSource env (.bytes b) (some n) = .ok (.str t) := by
   obtain ⟨r, c, h1, h2, h3⟩ := (decode_ok_iff env b known n t).1 h
-  have hr := chooseBytes_noBom b r known n hbom h1
-  obtain ⟨rfl, hn⟩ := hr
+  obtain ⟨rfl, hn⟩ := chooseBytes_ok env b r known n h1
   obtain ⟨x, xs, rfl⟩ := List.exists_cons_of_ne_nil hn
-  simp [templateSource, h2, h3]
+  simp [templateSource, h2, h3, source_strips_bom]
 
--- `hé` as utf-8 bytes
-example : stripBom [104, 0xC3, 0xA9] = none ∧
-    decodeRawStream env0 (.bytes [104, 0xC3, 0xA9]) true none = .ok (utf8Name, .str "hé".toList) := by
-  decide +kernel
-
-/- OPEN (finding F-C18-3): without the guard.  `ModuleInfo.source` decodes the *original* bytes, BOM
-   included, so the source of a template with a BOM starts with U+FEFF, which the text the lexer compiled does not. -/
-
-/-- the model (like the code): `Template.source` of BOM + `hi` is U+FEFF `hi`, the compiled text is `hi` -/
-theorem source_keeps_bom_counterexample :
-    decodeRawStream env0 (.bytes [0xEF, 0xBB, 0xBF, 104, 105]) true none = .ok (utf8Name, .str "hi".toList) ∧
-    templateSource env0 (.bytes [0xEF, 0xBB, 0xBF, 104, 105]) (some utf8Name) = .ok (.str "﻿hi".toList) := by
+-- `hé` as utf-8 bytes, without and with a BOM
+example : decodeRawStream env0 (.bytes [104, 0xC3, 0xA9]) true none = .ok (utf8Name, .str "hé".toList) ∧
+    decodeRawStream env0 (.bytes [0xEF, 0xBB, 0xBF, 104, 0xC3, 0xA9]) true none = .ok (utf8Name, .str "hé".toList) ∧
+    templateSource env0 (.bytes [0xEF, 0xBB, 0xBF, 104, 0xC3, 0xA9]) (some utf8Name) = .ok (.str "hé".toList) := by
   decide +kernel
 
 /-! ## 7. `render()` and `render_unicode()` -/
